@@ -156,6 +156,8 @@ def run(chk, b, tier):
             if "rendering" in clause or "unparsable" in clause:
                 chk.violation("C12/in-table/" + clause, det)
     chk.cov["tables_rendered_for_in_situ_check"] = len(obs2)
+    from ._camp import generic_fault_sweep
+    generic_fault_sweep(chk, b, "C12", [['-v', '--no-progress', '--names=none']])
     chk.cov["rule"] = ("real counts.Metric/Binary.FormatNumber on exhaustive +-64 neighbourhoods of every prefix boundary and "
                        "precision switch, every band edge tie and 1000 seeded ties per band, 2^k+-2, 2^64-1, plus stratified "
                        "random values (log-uniform and mantissa-uniform); integer-only Go reference judges every clause; an "
